@@ -77,6 +77,9 @@ P = {
  "C11": ("model_checking", "Replication.tla AckedOnQuorum / AckedStable model-checked by TLC; the same virtual-cluster replay, with the acknowledged transactions checked on the real disks",
          "TLC checks AckedOnQuorum (an acknowledged write sits at its sequence on a quorum of nodes and carries a quorum count on the coordinator) and AckedStable (logs only grow, acknowledgements are never withdrawn) over every schedule of the bounded model; in the virtual-cluster replay every transaction the specification acknowledges must be stored on a quorum of the real Database directories with the coordinator's on-disk count at the quorum, also after crash/restart steps.",
          "Same trusted base as C10; a replica's Ok reply implies its append is durable (C01).", "5/C10-C11", "h-cluster"),
+ "C09": ("model_checking", "Subscription.tla (broadcast ring, history batches, hand-over, window) model-checked by TLC; traces of real subscriptions on the real ClusterActor validated by TLC against TraceSub.tla",
+         "TLC explores Subscription.tla for partition and stream matchers with InOrderNoGap, OnlyConfirmed, WindowRespected, CompleteAtRest (two named deviations must fail); real Subscribe runs on the real ClusterActor for Partition / Partitions / Stream / Streams matchers with unconfirmed events confirmed through the real ConfirmTransaction handler while the subscriber receives and acknowledges, including history reads parked (hook) between batches while the watermark advances; the recorded trace is validated line by line by TLC.",
+         "Single process; confirmations arrive through ConfirmTransaction; a record must lie below the watermark implied by the confirmations issued before it was received.", "5/C09", "h-cluster"),
 }
 
 NOT_YET = "not yet built in this session (planned: see DESIGN.md section 5); no claim is made"
